@@ -163,15 +163,27 @@ func VerifUploads() {
 		ops = `[{"query": "{ ping }"}, ` + ops + `]`
 	}
 	mapJSON, _ := json.Marshal(cmap)
+	// different files may carry the same file name (two "image.png")
+	sameName := len(c.fmap) > 1 && len(c.fmap) < 4 && verifChoice("samename", 2) == 1
+	nameOf := func(k string) string {
+		if sameName {
+			return "image.png"
+		}
+		return "file" + k + ".txt"
+	}
 	var keys, names, contents []string
 	for k := range c.fmap {
 		keys = append(keys, k)
-		names = append(names, "file"+k+".txt")
+		names = append(names, nameOf(k))
 		contents = append(contents, "content-of-file-"+k)
 	}
 	req := &http.Request{Method: http.MethodPost, Header: http.Header{}, Body: &vBody{}}
 	req.Header.Set("Content-Type", "multipart/form-data; boundary=x")
 	verifSetMultipart(req, []string{"operations", "map"}, []string{ops, string(mapJSON)}, keys, names, contents)
+	if len(c.fmap) < 4 && verifChoice("spilled", 2) == 1 {
+		// files above ParseMultipartForm's memory limit live in temporary files: closing them is not a no-op
+		verifSpillFiles(req)
+	}
 	rec := &vRecorder{}
 	f.gw.Handler(rec, req)
 	verifAssert(rec.code == 200, "a well-formed multipart request is accepted")
@@ -194,7 +206,7 @@ func VerifUploads() {
 				for _, r := range vRecv {
 					if r.url == owner && r.path == p {
 						n++
-						verifAssert(r.filename == "file"+key+".txt", "the part keeps its file name")
+						verifAssert(r.filename == nameOf(key), "the part keeps its file name")
 						verifAssert(r.content == "content-of-file-"+key, "the part keeps its bytes")
 						verifAssert(r.nullAt, "the operations document has null where the file goes")
 					}
